@@ -61,6 +61,14 @@ def load_findings(prop: str):
 def run_shard(prop, tier, seed, shard, nshards, out):
     """Executed in the shard subprocess."""
     from rv.core import Ctx
+    try:
+        # a tree under test that allocates without bound (a shared store that doubles on every use ...) must surface as a
+        # MemoryError inside the case that triggers it - which the judge reports with the case - not as a shard killed by the OS
+        import resource
+        lim = 12 * 1024 ** 3
+        resource.setrlimit(resource.RLIMIT_AS, (lim, lim))
+    except Exception:  # noqa: BLE001 - no such limit on this platform
+        pass
     ctx = Ctx(prop, tier, seed, shard, nshards)
     ctx.ambient = getattr(load_module(prop), 'AMBIENT', None)
     result = {'fatal': None}
